@@ -196,6 +196,31 @@ def run(tier, seed, rng):
                         same = same and ((a is None and b is None) or (a is not None and b is not None and torch.equal(a, b)))
                 if not same:
                     probs.append(f'step {st}: an eval-mode pass changed the K-FAC state')
+            # --- behavioural form: an eval-mode pass BETWEEN two accumulated micro-batches must not shift anything ---
+            ma, mb = copy.deepcopy(twin), copy.deepcopy(twin)
+            kw2 = dict(kw); kw2['accumulation_steps'] = 2; kw2['factor_update_steps'] = 1; kw2['inv_update_steps'] = 1
+            pa, pb = KFACPreconditioner(ma, **kw2), KFACPreconditioner(mb, **kw2)
+            g = torch.Generator().manual_seed(seed + 77 * k)
+            xs = [torch.randn(x_shape, generator=g, dtype=torch.float64).to(dt) for _ in range(3)]
+            for mm, pp, with_eval in ((ma, pa, False), (mb, pb, True)):
+                mm.train(); mm.zero_grad()
+                for j in (0, 1):
+                    yy = mm(xs[j]); (yy * wts).sum().backward()
+                    if with_eval and j == 0:
+                        mm.eval()
+                        xe = xs[2].clone().requires_grad_(True)
+                        torch.autograd.grad((mm(xe) * wts).sum(), xe)     # backward without touching parameter gradients
+                        mm.train()
+                pp.step()
+            sda, sdb = pa.state_dict(), pb.state_dict()
+            for nme in sda['layers']:
+                for key in ('A', 'G'):
+                    a, b = sda['layers'][nme][key], sdb['layers'][nme][key]
+                    if (a is None) != (b is None) or (a is not None and not torch.equal(a, b)):
+                        probs.append(f'an eval-mode pass between two accumulated micro-batches changed factor {key} of {nme}')
+            for (n1, q1), (n2, q2) in zip(ma.named_parameters(), mb.named_parameters()):
+                if (q1.grad is None) != (q2.grad is None) or (q1.grad is not None and not torch.equal(q1.grad, q2.grad)):
+                    probs.append(f'an eval-mode pass between two accumulated micro-batches changed the preconditioned gradient of {n1}')
             nreg = len(reg)
             nun = sum(1 for m in model.modules() if not any(True for _ in m.children()) and list(m.parameters()) and m not in reg)
             cov.add(case, nreg >= 1 and nun >= 1, sample_cap=3)
